@@ -652,3 +652,104 @@ def r_normalize_order(cx):
           "split_into_steps does not map both CR LF and a bare CR to LF (in this order) before it splits the text into "
           "lines: comments and continuation colons are then cut differently for such texts",
           cx.where(g.d["span"]))
+
+
+# ---------------------------------------------------------------------------------------------------------------------
+# R-INV-DECLARED (C03, C01): an invertible operator can be asked for its inverse
+
+INV_EXEMPT = {
+    "inner_op::pushpop::push": "direction handled by the pipeline interpreter (push <-> pop)",
+    "inner_op::pushpop::pop": "direction handled by the pipeline interpreter (push <-> pop)",
+    "inner_op::stack::new": "direction handled by the pipeline interpreter (stack_fwd / stack_inv)",
+}
+
+
+@rule("R-INV-DECLARED", ["C03", "C01"])
+def r_inv_declared(cx):
+    """handle_op_inversion reads `params.boolean("inv")`, and ParsedParameters only ever holds flags that the
+    operator's gamut declares. Every built-in constructor that registers an inverse function therefore declares the
+    flag `inv` in the gamut it parses with - otherwise `<operator> inv` silently builds the forward operator, and an
+    inverted pipeline containing it is not the inverse of the pipeline."""
+    reg = cx.registry()
+    n = 0
+    for path, c in sorted(reg.ctors.items()):
+        if c.inv_kind != "Some" or c.gamut is None:
+            continue
+        n += 1
+        if path in INV_EXEMPT:
+            cx.ob("R-INV-DECLARED", path, True, "exempt: " + INV_EXEMPT[path], nontrivial=False)
+            continue
+        ok = any(isinstance(e, dict) and str(e.get("__struct", "")).endswith("OpParameter::Flag") and e.get("key") == "inv"
+                 for e in c.gamut)
+        cx.ob("R-INV-DECLARED", path, ok,
+              "%s registers an inverse and declares the flag `inv`" % path if ok else
+              "%s registers an inverse function but its gamut (%s) has no flag `inv`: `%s inv` is built as the forward "
+              "operator" % (path, c.gamut_const, (c.names or ["?"])[0]), c.gamut_const or path)
+    cx.count("R-INV-DECLARED", "invertible_constructors", n)
+
+
+# ---------------------------------------------------------------------------------------------------------------------
+# R-CHASE-VISITED (C04): the look-up chain remembers every entry it went through
+
+@rule("R-CHASE-VISITED", ["C04"])
+def r_chase_visited(cx):
+    """`chase` follows `$name` / `(default)` indirections from entry to entry, and terminates on a cycle only because
+    an entry it has already followed is never entered again. There is a collection that grows inside the chase loop
+    (the followed entries), and the search predicate asks a question about *all* of it (any / all / contains / position /
+    find over the collection) - not only about one of its elements (`last()`, `first()`, `get(k)`): a chain that returns
+    to a name it left two hops ago would otherwise go round until the round budget is used up, and a well-formed
+    nested macro would be refused as circular."""
+    base = "op::parsed_parameters::chase"
+    f = cx.f.fn(base)
+    WIDE = ("any", "all", "contains", "position", "find", "rposition", "find_map", "binary_search", "contains_key")
+    visited = set()
+    for bb, t in f.calls():
+        c = f.callee(t) or ""
+        if c.rsplit("::", 1)[-1] in ("push", "insert", "push_back") and f.innermost_loop(bb) is not None:
+            a0 = f.arg_terms(bb)[0]
+            if a0[0] == "refplace" and not a0[3]:
+                visited.add(a0[2])
+    caps = {}
+    for bb, i, st in f.all_stmts():
+        if st["k"] == "assign" and st["rv"]["k"] == "agg" and st["rv"].get("agg") == "closure":
+            v = f.rvalue(st["rv"], (bb, i))
+            if v[0] == "agg" and isinstance(v[1], tuple) and v[1][0] == "closure":
+                caps[v[1][1]] = [x[2] if x[0] == "refplace" and not x[3] else None for x in v[2]]
+    wide = 0
+
+    def queries(g, env):
+        """env: field index of the closure environment -> local of chase (or None for chase itself)"""
+        nonlocal wide
+        for bb, t in g.calls():
+            tail = (g.callee(t) or "").rsplit("::", 1)[-1]
+            if tail not in WIDE:
+                continue
+            recv = g.arg_terms(bb)[0]
+            if recv[0] == "refplace" and not recv[3]:
+                recv = g.local_value(recv[2], g.end_point(bb))
+            hit = []
+
+            def vis(y):
+                if env is None:
+                    if y[0] in ("refplace",) and y[2] in visited:
+                        hit.append(1)
+                else:
+                    if y[0] == "proj" and isinstance(y[2], tuple) and y[2][0] == "f" and mir.strip_refs(y[1]) in (
+                            ("proj", ("arg", 1), "deref"), ("arg", 1)) and y[2][1] < len(env) and env[y[2][1]] in visited:
+                        hit.append(1)
+                return True
+            mir.walk(recv, vis)
+            if hit:
+                wide += 1
+    queries(f, None)
+    for cname, env in sorted(caps.items()):
+        if cx.f.has_fn(cname):
+            queries(cx.f.fn(cname), env)
+    ok = bool(visited) and wide > 0
+    cx.ob("R-CHASE-VISITED", "chase/followed-set", ok,
+          "the search predicate of chase questions the whole collection of followed entries" if ok else
+          ("anchor-missing: chase has no collection that grows with the entries it follows" if not visited else
+           "chase records the entries it follows but its search never asks about all of them (only about one, e.g. the "
+           "last): a look-up chain that returns to an earlier entry cycles until the round budget is exhausted and a "
+           "well-formed nested macro is refused as circular"), cx.where(f.d["span"]))
+    cx.count("R-CHASE-VISITED", "membership_tests", wide)
